@@ -45,7 +45,7 @@ def _mk(s, sc, ec):
 def _full_cases(max_size=10):
     return st.fixed_dictionaries(dict(
     s=gen.score_sets(min_pos=1, min_neg=1, max_size=max_size,
-                     modes=("grid", "grid", "grid", "int", "dyadic", "float", "ulp", "distinct"), huge_easy=True, containers=("f64", "f64", "f32", "list", "neg-int", "pos-int", "neg-f32", "f128", "series")),
+                     modes=("grid", "grid", "grid", "int", "dyadic", "float", "ulp", "distinct"), huge_easy=True, containers=("f64", "f64", "f32", "list", "neg-int", "pos-int", "neg-f32", "f128", "series", "swapped")),
     int_limits=st.booleans(),
     # the largest finite float as a score (a sentinel), possibly in both classes
     sentinel=st.sampled_from([None, None, None, "low", "high", "both", "high-tie", "low-tie"]),
